@@ -18,7 +18,7 @@ PID = "C05"
 
 INVALID_KINDS = ["past1", "at0", "at_last", "first_offset", "offsets_order", "indices_order", "overlap",
                  "offset_eq_len", "offset_gt_len", "len_mismatch", "blocks_past", "blocks_equal_index", "overlap_late",
-                 "indices_order_late", "overlap_early", "negative_first", "negative_w"]
+                 "indices_order_late", "overlap_early", "negative_first", "negative_w", "first_offset_single"]
 
 
 def invalid_op(kind, cursor, last_rel):
@@ -32,6 +32,8 @@ def invalid_op(kind, cursor, last_rel):
         return ("w", last_rel, 1) if last_rel is not None else None
     if kind == "first_offset":
         return ("wb", [c + 1, c + 9], [1, 3], 5)
+    if kind == "first_offset_single":  # one block whose data offset is not 0
+        return ("wb", [c + 4], [2], 5)
     if kind == "offsets_order":
         return ("wb", [c, c + 5, c + 9], [0, 2, 2], 6)
     if kind == "indices_order":
